@@ -1,2 +1,293 @@
-(* C16 (placeholder while the proofs are being written) *)
-From IB Require Import Metrics.Metrics.
+(* C16: metrics never lose concurrent updates and never influence results.
+   This file holds ONLY the property theorems (each closed by `exact`) and their non-vacuity
+   examples.  Model: Metrics/Metrics.v (one lock acquisition = one atomic step; threads = lists
+   of calls; schedule = sequence of granted thread ids; a grant to a finished thread is
+   skipped), vocabulary: Metrics/Spec.v. *)
+From Coq Require Import List ZArith NArith Bool.
+From IB Require Import Metrics.Metrics Metrics.Spec Proofs.MetricsProofs Proofs.MetricsMore.
+Import ListNotations.
+
+(* ---------- no lost update ---------- *)
+
+(* Any number of threads, any calls, ANY schedule that runs every thread to its end: if every
+   call leaves counter n alone except through increment_counter (calls on other names, pre-fix
+   increments of other names, register_all, start/end stamps are all allowed), the final value
+   of n is its initial value plus the sum of all increments.  "Not poisoned" = no counter
+   overflowed u64 on the way (a checked add that panics inside the lock). *)
+Theorem c16_no_lost_update :
+  forall (n : name) (threads : list (list call)) (sched : list nat) (s0 : mstate) (init : N),
+    counter_of n s0 = Some init ->
+    (forall cs c, In cs threads -> In c cs -> call_incr_only n c = true) ->
+    complete sched (compile threads) s0 = true ->
+    ms_poisoned (run sched (compile threads) s0) = false ->
+    counter_of n (run sched (compile threads) s0) = Some (init + total_increments n threads)%N.
+Proof. exact no_lost_update. Qed.
+
+Ltac all_calls :=
+  let cs := fresh "cs" in let c := fresh "c" in let Hcs := fresh "Hcs" in let Hc := fresh "Hc" in
+  intros cs c Hcs Hc; cbn [In] in Hcs;
+  repeat (destruct Hcs as [<-|Hcs]; [cbn [In] in Hc;
+          repeat (destruct Hc as [<-|Hc]; [vm_compute; try split; reflexivity|]); destruct Hc|]);
+  destruct Hcs.
+
+Definition ex_threads : list (list call) :=
+  [[Incr 0 5; Incr 1 2; Incr 0 1]; [Incr 0 7; SetC 1 9]; [Reg 2 (Other 4); Incr 0 3; IncrOld 1 1]].
+Definition ex_s0 : mstate := MS [(0%Z, Counter 10)] None None false.
+Definition ex_sched : list nat := [2; 0; 1; 1; 0; 2; 2; 0; 2]%nat.
+
+Example c16_no_lost_update_ex :
+  complete ex_sched (compile ex_threads) ex_s0 = true /\
+  total_increments 0%Z ex_threads = 16%N /\
+  counter_of 0%Z (run ex_sched (compile ex_threads) ex_s0) = Some 26%N.
+Proof.
+  assert (Hc : complete ex_sched (compile ex_threads) ex_s0 = true) by (vm_compute; reflexivity).
+  split; [exact Hc|]. split; [vm_compute; reflexivity|].
+  apply (c16_no_lost_update 0%Z ex_threads ex_sched ex_s0 10%N).
+  - reflexivity.
+  - unfold ex_threads. all_calls.
+  - exact Hc.
+  - vm_compute. reflexivity.
+Qed.
+
+(* the same from a hypothesis on the INPUT only: everything the counters hold plus everything the
+   calls can add stays below 2^64 (then nothing overflows under any schedule) *)
+Theorem c16_no_lost_update_bounded :
+  forall (n : name) (threads : list (list call)) (sched : list nat) (s0 : mstate) (init : N),
+    ms_poisoned s0 = false ->
+    counter_of n s0 = Some init ->
+    (forall cs c, In cs threads -> In c cs -> call_incr_only n c = true /\ current_call c = true) ->
+    (budget s0 threads < U64_MOD)%N ->
+    complete sched (compile threads) s0 = true ->
+    counter_of n (run sched (compile threads) s0) = Some (init + total_increments n threads)%N.
+Proof. exact no_lost_update_bounded. Qed.
+
+Definition ex_threads2 : list (list call) :=
+  [[Incr 0 5; Incr 1 2; Incr 0 1]; [Incr 0 7; SetC 1 9]; [Reg 2 (Counter 4); Incr 0 3]].
+
+Example c16_no_lost_update_bounded_ex :
+  forall sched, complete sched (compile ex_threads2) ex_s0 = true ->
+    counter_of 0%Z (run sched (compile ex_threads2) ex_s0) = Some 26%N.
+Proof.
+  intros sched Hc.
+  apply (c16_no_lost_update_bounded 0%Z ex_threads2 sched ex_s0 10%N); try reflexivity.
+  - unfold ex_threads2. all_calls.
+  - exact Hc.
+Qed.
+
+Theorem c16_no_poison :
+  forall (threads : list (list call)) (sched : list nat) (s0 : mstate),
+    ms_poisoned s0 = false ->
+    (forall cs c, In cs threads -> In c cs -> current_call c = true) ->
+    (budget s0 threads < U64_MOD)%N ->
+    ms_poisoned (run sched (compile threads) s0) = false.
+Proof. exact no_poison. Qed.
+
+(* boundary: 2^64 - 1 is reached without a panic, one more poisons the collector *)
+Example c16_no_poison_ex :
+  let big := 4611686018427387903%N in
+  counter_of 0%Z (run_calls [Incr 0 big; Incr 0 big; Incr 0 big; Incr 0 big; Incr 0 3] empty_state)
+  = Some 18446744073709551615%N /\
+  ms_poisoned (run_calls [Incr 0 big; Incr 0 big; Incr 0 big; Incr 0 big; Incr 0 4] empty_state) = true.
+Proof. split; vm_compute; reflexivity. Qed.
+
+(* a counter that does not exist yet: the first increment creates it *)
+Theorem c16_no_lost_update_fresh :
+  forall (n : name) (threads : list (list call)) (sched : list nat) (s0 : mstate),
+    lookup n (ms_metrics s0) = None ->
+    (forall cs c, In cs threads -> In c cs -> call_incr_only n c = true) ->
+    complete sched (compile threads) s0 = true ->
+    ms_poisoned (run sched (compile threads) s0) = false ->
+    cval n (run sched (compile threads) s0) = total_increments n threads /\
+    ((exists cs v, In cs threads /\ In (Incr n v) cs) ->
+     counter_of n (run sched (compile threads) s0) = Some (total_increments n threads)).
+Proof. exact no_lost_update_fresh. Qed.
+
+Example c16_no_lost_update_fresh_ex :
+  counter_of 0%Z (run [1; 0; 0; 1]%nat (compile [[Incr 0 1; Incr 0 2]; [Incr 0 4; Incr 0 8]]) empty_state)
+  = Some 15%N.
+Proof.
+  refine (proj2 (c16_no_lost_update_fresh 0%Z [[Incr 0 1; Incr 0 2]; [Incr 0 4; Incr 0 8]]
+                   [1; 0; 0; 1]%nat empty_state eq_refl _ eq_refl eq_refl) _).
+  - all_calls.
+  - exists [Incr 0%Z 1%N; Incr 0%Z 2%N], 1%N. split; left; reflexivity.
+Qed.
+
+(* set_counter interleaved: the final value is the value of the LAST set in schedule order plus
+   the increments executed after it (no set: initial value, or nothing, plus all increments) *)
+Theorem c16_sets_and_increments :
+  forall (n : name) (threads : list (list call)) (sched : list nat) (s0 : mstate),
+    not_other n s0 = true ->
+    (forall cs c, In cs threads -> In c cs -> call_incr_or_set n c = true) ->
+    ms_poisoned (run sched (compile threads) s0) = false ->
+    let tr := trace sched (compile threads) s0 in
+    counter_of n (run sched (compile threads) s0) =
+    match last_set n tr with
+    | Some (v, after) => Some (v + sum_incr n after)%N
+    | None => match counter_of n s0 with
+              | Some c => Some (c + sum_incr n tr)%N
+              | None => if existsb (has_incr n) tr then Some (sum_incr n tr) else None
+              end
+    end.
+Proof. exact sets_and_increments. Qed.
+
+Example c16_sets_and_increments_ex :
+  let threads := [[Incr 0 1; SetC 0 100; Incr 0 2]; [Incr 0 4; Incr 0 8]] in
+  (* 4 | 1 | set 100 | 8 | 2 : the increment 4 and 1 are overwritten, 8 and 2 count *)
+  last_set 0%Z (trace [1; 0; 0; 1; 0]%nat (compile threads) ex_s0) = Some (100%N, [SIncr 0 8; SIncr 0 2]) /\
+  counter_of 0%Z (run [1; 0; 0; 1; 0]%nat (compile threads) ex_s0) = Some 110%N.
+Proof.
+  intros threads.
+  assert (H : last_set 0%Z (trace [1; 0; 0; 1; 0]%nat (compile threads) ex_s0)
+              = Some (100%N, [SIncr 0 8; SIncr 0 2])) by (vm_compute; reflexivity).
+  split; [exact H|].
+  pose proof (c16_sets_and_increments 0%Z threads [1; 0; 0; 1; 0]%nat ex_s0 eq_refl) as T.
+  cbv zeta in T. rewrite H in T. apply T.
+  - subst threads. all_calls.
+  - vm_compute. reflexivity.
+Qed.
+
+(* ---------- the regression the check guards against ---------- *)
+(* increment_counter BEFORE commit e2bce57 read the counter under one lock acquisition and wrote
+   it back under a second one (IncrOld = [read; write]).  Two threads, one increment each,
+   schedule r1 r2 w1 w2: both read `init`, the second write wins, v1 is lost. *)
+Theorem c16_old_code_lost_update :
+  forall (n : name) (s0 : mstate) (init v1 v2 : N),
+    ms_poisoned s0 = false ->
+    counter_of n s0 = Some init ->
+    (init + v1 < U64_MOD)%N -> (init + v2 < U64_MOD)%N ->
+    let threads := [[IncrOld n v1]; [IncrOld n v2]] in
+    let sched := [0; 1; 0; 1]%nat in
+    complete sched (compile threads) s0 = true /\
+    counter_of n (run sched (compile threads) s0) = Some (init + v2)%N /\
+    ((0 < v1)%N -> counter_of n (run sched (compile threads) s0)
+                   <> Some (init + total_increments n [[Incr n v1]; [Incr n v2]])%N).
+Proof. exact old_code_lost_update. Qed.
+
+Example c16_old_code_lost_update_ex :
+  counter_of 0%Z (run [0; 1; 0; 1]%nat (compile [[IncrOld 0 5]; [IncrOld 0 7]]) ex_s0) = Some 17%N /\
+  counter_of 0%Z (run [0; 1; 0; 1]%nat (compile [[Incr 0 5]; [Incr 0 7]]) ex_s0) = Some 22%N.
+Proof. split; vm_compute; reflexivity. Qed.
+
+(* ---------- transparency ---------- *)
+(* run_collect with a collector attached returns what it returns without one, whatever the plan,
+   the engine, the clock and the collector's content -- provided the collector's Mutex is not
+   poisoned (known finding C16-poisoned-collector below). *)
+Theorem c16_metrics_transparent :
+  forall (C R : Type) (plan : outcome C) (exec : C -> outcome R)
+         (clk clk' : nat -> Z) (i j i' j' : nat) (m m' : mstate),
+    ms_poisoned m = false ->
+    fst (run_collect true plan exec clk i j m) = fst (run_collect false plan exec clk' i' j' m').
+Proof. exact metrics_transparent. Qed.
+
+Example c16_metrics_transparent_ex :
+  fst (run_collect true (Ok 3%Z) (fun c => Ok (c + 1)%Z) Z.of_nat 0 1 ex_s0) = Ok 4%Z /\
+  fst (run_collect false (Ok 3%Z) (fun c => Ok (c + 1)%Z) Z.of_nat 5 9 empty_state) = Ok 4%Z /\
+  fst (run_collect true (Ok 3%Z) (fun _ => @Err Z 7) Z.of_nat 0 1 ex_s0) = Err 7.
+Proof. repeat split. Qed.
+
+(* KNOWN FINDING (class: the attached collector is poisoned).  A panic inside one of the
+   collector's critical sections (u64 overflow of a counter in a build with overflow checks)
+   poisons its Mutex; record_metrics_start then panics in `lock().unwrap()` and the pipeline,
+   which returns Ok without the collector, panics with it. *)
+Theorem c16_poisoned_collector_refuted :
+  exists (m : mstate) (calls : list call),
+    m = run_calls calls empty_state /\ ms_poisoned m = true /\
+    fst (run_collect true (Ok tt) (fun _ => Ok 1%Z) Z.of_nat 0 1 m) = Panic /\
+    fst (run_collect false (Ok tt) (fun _ => Ok 1%Z) Z.of_nat 0 1 m) = Ok 1%Z.
+Proof.
+  exists (run_calls (repeat (Incr 900 4611686018427387903) 5) empty_state),
+         (repeat (Incr 900%Z 4611686018427387903%N) 5).
+  repeat split; vm_compute; reflexivity.
+Qed.
+
+(* ---------- elapsed time ---------- *)
+(* after a successful run with a monotone clock: start and end are the two clock readings of THIS
+   run, elapsed() is Some of their (non-negative) difference, and the metrics are untouched *)
+Theorem c16_elapsed_some_nonneg :
+  forall (C R : Type) (plan : outcome C) (exec : C -> outcome R) (clk : nat -> Z)
+         (i j : nat) (m : mstate) (r : R),
+    monotone clk -> (i <= j)%nat ->
+    ms_poisoned m = false ->
+    fst (run_collect true plan exec clk i j m) = Ok r ->
+    let m' := snd (run_collect true plan exec clk i j m) in
+    elapsed m' = Some (clk j - clk i)%Z /\ (0 <= clk j - clk i)%Z /\
+    ms_start m' = Some (clk i) /\ ms_end m' = Some (clk j) /\
+    ms_metrics m' = ms_metrics m.
+Proof. exact elapsed_some_nonneg. Qed.
+
+Example c16_elapsed_some_nonneg_ex :
+  let clk := fun k => (1000 + 250 * Z.of_nat k)%Z in
+  monotone clk /\
+  elapsed (snd (run_collect true (Ok tt) (fun _ => Ok 1%Z) clk 2 6 ex_s0)) = Some 1000%Z.
+Proof.
+  split; [|vm_compute; reflexivity].
+  intros a b Hab. apply Z.add_le_mono_l. apply Z.mul_le_mono_nonneg_l; [discriminate|].
+  apply Nat2Z.inj_le. exact Hab.
+Qed.
+
+(* failing runs: an error of build_plan returns before record_end (the previous end stamp, if
+   any, stays); an error of the engine is returned after record_end *)
+Theorem c16_failed_plan_keeps_old_end :
+  forall (C R : Type) (exec : C -> outcome R) clk i j m e,
+    ms_poisoned m = false ->
+    let m' := snd (run_collect true (@Err C e) exec clk i j m) in
+    ms_start m' = Some (clk i) /\ ms_end m' = ms_end m.
+Proof. exact failed_plan_leaves_end. Qed.
+
+Theorem c16_failed_engine_records_end :
+  forall (C R : Type) (c : C) (exec : C -> outcome R) clk i j m e,
+    ms_poisoned m = false -> exec c = Err e ->
+    let m' := snd (run_collect true (Ok c) exec clk i j m) in
+    ms_start m' = Some (clk i) /\ ms_end m' = Some (clk j).
+Proof. exact failed_engine_records_end. Qed.
+
+Example c16_failed_runs_ex :
+  elapsed (snd (run_collect true (@Err unit 1) (fun _ => Ok 1%Z) Z.of_nat 0 1 empty_state)) = None /\
+  elapsed (snd (run_collect true (Ok tt) (fun _ => @Err Z 1) Z.of_nat 0 1 empty_state)) = Some 1%Z.
+Proof. split; vm_compute; reflexivity. Qed.
+
+(* ---------- JSON export ---------- *)
+(* every name any thread registered (register, register_all) or wrote a counter under is a key
+   of to_json after a complete schedule *)
+Theorem c16_json_has_all_registered :
+  forall (threads : list (list call)) (sched : list nat) (s0 : mstate),
+    complete sched (compile threads) s0 = true ->
+    ms_poisoned (run sched (compile threads) s0) = false ->
+    forall cs c n, In cs threads -> In c cs -> In n (call_names c) ->
+                   In n (json_keys (run sched (compile threads) s0)).
+Proof. exact json_has_all_registered. Qed.
+
+Example c16_json_has_all_registered_ex :
+  let threads := [[RegAll [(3%Z, Other 1); (4%Z, Counter 2); (3%Z, Counter 9)]; RecStart 5];
+                  [Incr 7 1; RecEnd 8]] in
+  json_keys (run [0; 1; 0; 0; 1; 0]%nat (compile threads) empty_state) = [3; 7; 4; -1]%Z /\
+  In 3%Z (json_keys (run [0; 1; 0; 0; 1; 0]%nat (compile threads) empty_state)).
+Proof.
+  intros threads. split; [vm_compute; reflexivity|].
+  apply (c16_json_has_all_registered threads [0; 1; 0; 0; 1; 0]%nat empty_state eq_refl eq_refl
+           [RegAll [(3%Z, Other 1); (4%Z, Counter 2); (3%Z, Counter 9)]; RecStart 5]
+           (RegAll [(3%Z, Other 1); (4%Z, Counter 2); (3%Z, Counter 9)]) 3%Z).
+  - left. reflexivity.
+  - left. reflexivity.
+  - left. reflexivity.
+Qed.
+
+(* ... exactly once: duplicate names do not produce duplicate keys *)
+Theorem c16_json_one_entry_per_name :
+  forall (threads : list (list call)) (sched : list nat),
+    NoDup (json_keys (run sched (compile threads) empty_state)).
+Proof. exact json_one_entry_per_name. Qed.
+
+(* duplicate names: replacement -- register_all leaves the LAST metric of each name *)
+Theorem c16_register_all_last_wins :
+  forall (ms : list (name * metric)) (s : mstate) (n : name),
+    ms_poisoned s = false ->
+    lookup n (ms_metrics (run_calls [RegAll ms] s)) =
+    match last_assoc n ms with Some m => Some m | None => lookup n (ms_metrics s) end /\
+    ms_poisoned (run_calls [RegAll ms] s) = false.
+Proof. exact register_all_last_wins. Qed.
+
+Example c16_register_all_last_wins_ex :
+  lookup 3%Z (ms_metrics (run_calls [RegAll [(3%Z, Other 1); (4%Z, Counter 2); (3%Z, Counter 9)]] empty_state))
+  = Some (Counter 9).
+Proof. vm_compute. reflexivity. Qed.
